@@ -56,7 +56,7 @@ impl Stage for Reach {
         "search"
     }
     fn cases(&self, tier: Tier) -> u32 {
-        tier.pick(3000, 40000)
+        tier.pick(12000, 400000)
     }
     fn watchdog_secs(&self, tier: Tier) -> u64 {
         tier.pick(600, 1800)
